@@ -138,8 +138,10 @@ func ReadChannelWatchdog(ctx context.Context, db *cesium.DB, spec tsm.ChannelSpe
 	select {
 	case r = <-done:
 	case <-time.After(timeout):
-		cerr := it.Close()
-		return nil, &StalledError{Err: cerr}
+		// The iterator is not closed here: the reading goroutine is still inside it, and
+		// touching it from this goroutine would itself be a data race. The goroutine dump of
+		// the harness's stall watchdog shows where the storage side is stuck.
+		return nil, &StalledError{}
 	}
 	cerr := it.Close()
 	if r.err != nil {
